@@ -93,27 +93,25 @@ theorem containers_unique (allTypes : List (String × LPType)) (allParams : List
   induction fuel generalizing acc res c with
   | zero => simp [updateCaches] at h
   | succ fuel ih =>
-    obtain ⟨ts, ps, cs⟩ := acc
-    simp only [updateCaches, bind, Except.bind, pure, Except.pure] at h
+    simp only [updateCaches] at h
     refine foldlM_inv _ (fun a => UniqueKeys a.1 ∧ UniqueKeys a.2.1 ∧ UniqueKeys a.2.2) ?_ _ _ res
-      ⟨hacc.1, hacc.2.1, assocSet_unique cs c.name c hacc.2.2⟩ h
+      ⟨hacc.1, hacc.2.1, assocSet_unique acc.2.2 c.name c hacc.2.2⟩ h
     intro a e a' ha hstep
-    obtain ⟨ts1, ps1, cs1⟩ := a
     cases e with
     | cont n =>
-      simp only at hstep
+      simp only [cacheEntry] at hstep
       cases hl : lookup.get? n with
-      | none => simp [hl, throw, throwThe, MonadExceptOf.throw] at hstep
+      | none => simp [hl] at hstep
       | some nc => simp only [hl] at hstep; exact ih _ _ _ ha hstep
     | param n =>
-      simp only at hstep
+      simp only [cacheEntry] at hstep
       cases hp : allParams.find? (·.1 == n) with
-      | none => simp [hp, throw, throwThe, MonadExceptOf.throw] at hstep
+      | none => simp [hp] at hstep
       | some np =>
         obtain ⟨pn, p⟩ := np
         simp only [hp] at hstep
         cases ht : allTypes.find? (·.1 == p.typeName) with
-        | none => simp [ht, throw, throwThe, MonadExceptOf.throw] at hstep
+        | none => simp [ht] at hstep
         | some nt =>
           obtain ⟨tn, t⟩ := nt
           simp only [ht] at hstep
